@@ -423,14 +423,17 @@ pub fn run(_tier: &str) -> Report {
     {
         use ruma_common::directory::RoomNetwork;
         macro_rules! req_round_trip {
-            ($label:expr, $ty:ty, $mk:expr) => {{
+            ($label:expr, $ty:ty, $mk:expr) => {
+                req_round_trip!($label, $ty, $mk, Vec::<String>::new())
+            };
+            ($label:expr, $ty:ty, $mk:expr, $path_args:expr) => {{
                 n += 1;
                 let r = std::panic::catch_unwind(std::panic::AssertUnwindSafe(|| -> Result<(), Value> {
                     let want = format!("{:?}", $mk);
                     let h = $mk.try_into_http_request::<Vec<u8>>("https://h.tld", SendAccessToken::IfRequired("tok"), &[MatrixVersion::V1_1]).map_err(|e| json!({"stage": "encode", "error": e.to_string()}))?;
                     let m1 = msg(&h);
-                    let none: [String; 0] = [];
-                    let back = <$ty>::try_from_http_request(h, &none).map_err(|e| json!({"endpoint": $label, "stage": "decode", "error": e.to_string(), "sent": want, "message": m1}))?;
+                    let path_args: Vec<String> = $path_args;
+                    let back = <$ty>::try_from_http_request(h, &path_args).map_err(|e| json!({"endpoint": $label, "stage": "decode", "error": e.to_string(), "sent": want, "message": m1}))?;
                     if format!("{back:?}") != want {
                         return Err(json!({"endpoint": $label, "stage": "compare", "sent": want, "decoded": format!("{back:?}"), "message": m1}));
                     }
@@ -475,6 +478,58 @@ pub fn run(_tier: &str) -> Report {
                 }
             }
         }
+        // client threads / search: requests whose fields have their default value (left out by the encoder)
+        {
+            use ruma_client_api::threads::get_threads::v1::{IncludeThreads, Request};
+            let room = ruma_common::OwnedRoomId::try_from("!r:s.org").unwrap();
+            for include in [IncludeThreads::All, IncludeThreads::Participated] {
+                for from in [None, Some("t 1&x".to_owned())] {
+                    req_round_trip!("client get_threads", Request, {
+                        let mut r = Request::new(room.clone());
+                        r.include = include.clone();
+                        r.from = from.clone();
+                        r
+                    }, vec![room.to_string()]);
+                }
+            }
+        }
+        {
+            use ruma_client_api::search::search_events::v3::{Categories, Criteria, Request, ResultCategories, ResultRoomEvents, Response, SearchResult};
+            for with_filter in [false, true] {
+                req_round_trip!("client search_events", Request, {
+                    let mut c = Criteria::new("needle a&b".to_owned());
+                    if with_filter {
+                        c.filter.limit = Some(5u32.into());
+                    }
+                    let mut cats = Categories::new();
+                    cats.room_events = Some(c);
+                    Request::new(cats)
+                });
+            }
+            n += 1;
+            let mk = || {
+                let mut res = ResultRoomEvents::new();
+                res.results = vec![SearchResult::new()];
+                let mut cats = ResultCategories::new();
+                cats.room_events = res;
+                Response::new(cats)
+            };
+            let r = std::panic::catch_unwind(std::panic::AssertUnwindSafe(|| -> Result<(), Value> {
+                let want = format!("{:?}", mk());
+                let h = mk().try_into_http_response::<Vec<u8>>().map_err(|e| json!({"stage": "encode", "error": e.to_string()}))?;
+                let m1 = format!("{} {}", h.status(), String::from_utf8_lossy(h.body()));
+                let back = Response::try_from_http_response(h).map_err(|e| json!({"endpoint": "client search_events", "stage": "decode", "error": e.to_string(), "message": m1}))?;
+                if format!("{back:?}") != want {
+                    return Err(json!({"endpoint": "client search_events", "stage": "compare", "sent": want, "decoded": format!("{back:?}"), "message": m1}));
+                }
+                Ok(())
+            }));
+            match r {
+                Err(_) => fail(&mut f_panic, json!({"endpoint": "client search_events", "observed": "panic"})),
+                Ok(Err(e)) => fail(&mut f_res, json!({"failure": e})),
+                Ok(Ok(())) => {}
+            }
+        }
         // client sync: a response whose only update is in one kind of room
         {
             use ruma_client_api::sync::sync_events::v3::{InvitedRoom, JoinedRoom, KnockedRoom, LeftRoom, Response};
@@ -511,7 +566,7 @@ pub fn run(_tier: &str) -> Report {
         }
     }
     Report {
-        bound: format!("3 synthetic endpoints (path x2, query incl. optional and multi-valued, header, JSON body incl. optional field, newtype body, raw body, status override 302): 11^3 (path, query, body) triples x 3 version sets x 3 optional-field shapes and the other endpoints' value lists; real endpoints: the public-rooms requests (client v3 POST, federation v1 POST and GET), push gateway notify, client sync v3 responses: {n} round trips"),
+        bound: format!("3 synthetic endpoints (path x2, query incl. optional and multi-valued, header, JSON body incl. optional field, newtype body, raw body, status override 302): 11^3 (path, query, body) triples x 3 version sets x 3 optional-field shapes and the other endpoints' value lists; real endpoints: the public-rooms requests (client v3 POST, federation v1 POST and GET), push gateway notify, client get_threads and search_events, client sync v3 responses: {n} round trips"),
         cases: n,
         obligations: vec![
             ("requests_survive_the_http_wire_format_and_reencode_identically", n, f_req),
